@@ -1,6 +1,8 @@
 """C15 -- (de)serialization leaves reader and writer modes as it found them (engine C, fully)."""
 from ..core import AnalysisError
 from ..genabs import lattice, skel
+from ._genprops import canon_write, each_class, first_diff, strip_guards
+from ..genabs.refcheck import canon_read
 
 
 def analyse(fam, shape, placement, outcomes):
@@ -19,7 +21,53 @@ def analyse(fam, shape, placement, outcomes):
         out.append(("C15.S1 mode-saved-and-restored-on-every-exit", inst, not f,
                     "; ".join("%s: %s" % (w, d) for _, w, d in f[:3]) or "entry mode saved before the body, restored in finally, never reassigned; "
                     "inner writes are literal and bracketed", "C15.S1 | %s | %s" % (shape.key[0], f[0][2][:60] if f else "")))
+        # the "consequently" clause: the mode is switched on and off around exactly what the spec puts in a chunked section
+        try:
+            for cn, view, scope, cls in each_class(shape, placement, o):
+                if view.err:
+                    continue  # C02's business
+                for side, emitted, want in (("serialize", _brackets(strip_guards(canon_write(view.w.tokens)), "san"), _brackets(strip_guards(scope.write), "san")),
+                                            ("deserialize", _brackets(canon_read(view.r.tokens), "mode"), _brackets(scope.read, "mode"))):
+                    d = first_diff(emitted, want)
+                    out.append(("C15.S2 mode-is-on-exactly-inside-chunked-sections", "%s class %s %s" % (inst, cn, side), d is None,
+                                d or "the mode switches sit where the spec's chunked sections begin and end",
+                                "C15.S2 | %s | %s" % (shape.key[0], side if d else "")))
+        except ValueError:
+            pass  # reference undefined for this cell: reported by C02.S0
     return out
+
+
+def _brackets(tokens, kind):
+    """The nesting structure of a grammar with everything but the mode switches reduced to '.' (runs collapsed)."""
+    out = []
+    for t in tokens:
+        if t[0] == kind:
+            out.append((kind, t[1]))
+            continue
+        sub = None
+        if t[0] in ("loop", "for"):
+            sub = ("loop", _brackets(t[2], kind))
+        elif t[0] in ("opt",):
+            sub = ("opt", _brackets(t[2], kind))
+        elif t[0] in ("if_remaining", "while_remaining", "if_not_last", "if_not_first"):
+            sub = (t[0], _brackets(t[1], kind))
+        elif t[0] == "dummy_guard":
+            sub = ("dummy", _brackets(t[1], kind))
+        elif t[0] == "switch":
+            sub = ("switch", [_brackets(b, kind) for c, b in t[2]])
+        if sub is not None and _has(sub, kind):
+            out.append(sub)
+        elif not out or out[-1] != ".":
+            out.append(".")
+    return out
+
+
+def _has(x, kind):
+    if isinstance(x, tuple) and x and x[0] == kind:
+        return True
+    if isinstance(x, (list, tuple)):
+        return any(_has(y, kind) for y in x)
+    return False
 
 
 def run(rep, index):
